@@ -1313,10 +1313,10 @@ func TestVerifC13Live(t *testing.T) {
 		return
 	}
 	rapid.Check(t, func(t *rapid.T) {
-		if rapid.IntRange(0, 3).Draw(t, "emfile") == 0 {
+		if rapid.IntRange(0, 2).Draw(t, "emfile") == 0 {
 			es := emfileScn{Network: rapid.SampledFrom([]string{"tcp4", "unix"}).Draw(t, "network"), Before: rapid.IntRange(0, 2).Draw(t, "before"), During: rapid.IntRange(1, 3).Draw(t, "during")}
-			es.StretchMS = rapid.SampledFrom([]int{20, 150, 700, 2300}).Draw(t, "stretch")
-			es.ShutdownDuring = rapid.IntRange(0, 2).Draw(t, "shutdownDuring") == 0
+			es.StretchMS = rapid.SampledFrom([]int{20, 150, 700, 2300, 2300}).Draw(t, "stretch")
+			es.ShutdownDuring = rapid.IntRange(0, 3).Draw(t, "shutdownDuring") == 0
 			vJournal(map[string]interface{}{"scenario": es})
 			sig, msg := runEmfile(es)
 			st.eval()
